@@ -20,6 +20,7 @@ type runSpec struct {
 	Scenario string
 	Quick    int
 	Thorough int
+	Grid     func(sc Scenario, thorough bool) [][]int // enumerated histories instead of a search
 }
 
 type propSpec struct {
@@ -37,13 +38,15 @@ func init() {
 		"bounded: all histories over the scenario alphabets up to the stated depth; data values outside the alphabets are not covered",
 	}
 	props["C01"] = propSpec{Checker: func() Checker { return chkC01{} }, Assume: common,
-		Runs: []runSpec{{"S-escrow", 5, 7}, {"S-leased", 5, 6}, {"S-life", 4, 6}}}
+		Runs: []runSpec{{"S-escrow", 5, 7, nil}, {"S-leased", 5, 6, nil}, {"S-life", 4, 6, nil}}}
+	props["C02"] = propSpec{Checker: func() Checker { return chkC02{} }, Assume: common,
+		Runs: []runSpec{{Scenario: "S-grid", Grid: gridHistories}, {"S-meter", 6, 8, nil}, {"S-escrow", 5, 7, nil}, {"S-leased", 5, 6, nil}}}
 	props["C03"] = propSpec{Checker: func() Checker { return chkC03{} }, Assume: common,
-		Runs: []runSpec{{"S-escrow", 5, 7}, {"S-leased", 5, 6}, {"S-life", 4, 6}}}
+		Runs: []runSpec{{"S-escrow", 5, 7, nil}, {"S-leased", 5, 6, nil}, {"S-life", 4, 6, nil}}}
 	props["C04"] = propSpec{Checker: func() Checker { return chkC04{} }, Assume: common,
-		Runs: []runSpec{{"S-life", 5, 6}, {"S-escrow", 5, 7}, {"S-leased", 5, 6}}}
+		Runs: []runSpec{{"S-life", 5, 6, nil}, {"S-escrow", 5, 7, nil}, {"S-leased", 5, 6, nil}}}
 	props["C05"] = propSpec{Checker: func() Checker { return chkC05{} }, Assume: common,
-		Runs: []runSpec{{"S-life", 5, 6}, {"S-escrow", 5, 7}, {"S-leased", 5, 6}}}
+		Runs: []runSpec{{"S-life", 5, 6, nil}, {"S-escrow", 5, 7, nil}, {"S-leased", 5, 6, nil}}}
 }
 
 type replayFile struct {
@@ -110,7 +113,16 @@ func main() {
 		}
 		ex := &Explorer{Sc: sc, Depth: d, Chk: chk, Workers: *workers, Deadline: deadline,
 			IsKnown: func(v Viol) bool { _, k := findings.Known(*prop, v.Inv+"|"+v.Sig); return k }}
-		st, found := ex.Run()
+		var st Stats
+		var found []Found
+		ngrid := 0
+		if r.Grid != nil {
+			hs := r.Grid(sc, *tier == "thorough")
+			ngrid = len(hs)
+			st, found = ex.RunHistories(hs)
+		} else {
+			st, found = ex.Run()
+		}
 		fmt.Printf("chainmc %s %s depth=%d: states=%d transitions=%d tx_ok=%d tx_fail=%d levels=%v exhaustive=%v known_cut=%d wall=%.1fs\n",
 			*prop, sc.Name, d, st.States, st.Transitions, st.TxOK, st.TxFail, st.Levels, st.Exhaustive, st.KnownCut, st.Wall.Seconds())
 		tot.States += st.States
@@ -126,7 +138,7 @@ func main() {
 		tot.Exhaustive = tot.Exhaustive && st.Exhaustive
 		perRun = append(perRun, map[string]interface{}{"scenario": sc.Name, "genesis": sc.GP.String(), "alphabet": len(sc.Alphabet), "depth_bound": d,
 			"states": st.States, "transitions": st.Transitions, "tx_ok": st.TxOK, "tx_failed": st.TxFail, "new_states_per_level": st.Levels,
-			"exhaustive_to_bound": st.Exhaustive, "deadline_hit": st.Deadline, "states_not_expanded_after_known_finding": st.KnownCut})
+			"exhaustive_to_bound": st.Exhaustive, "deadline_hit": st.Deadline, "states_not_expanded_after_known_finding": st.KnownCut, "enumerated_histories": ngrid})
 		for _, s := range ex.samples {
 			samples = append(samples, map[string]interface{}{"scenario": sc.Name, "history": s})
 		}
